@@ -392,30 +392,45 @@ def kp_model(case):
     return m, Ef, info
 
 
+KP_CALLS = 1.1e6     # affordable number of calls of the model functions per run (~20 us each)
+
+
 def kp_system(case, m):
+    """SystemKP with the drawn derivatives left to its finite-difference scheme.  Nested stencils multiply the number of calls
+    of the model functions per k-point (nb^depth, nb = 6..12 stencil vectors): when the run would need more than KP_CALLS
+    calls, the highest-order numerical derivative is supplied analytically instead (repeatedly).  Returns the system and the
+    flags actually used."""
     from wannierberri.system import SystemKP
     cart = bool(case["cartesian"])
     fd = [bool(case["fd1"]), bool(case["fd2"]), bool(case["fd3"])]
-    depth3 = 0
-    for f in fd:                      # nesting depth of the numerical third derivative
-        depth3 = depth3 + 1 if f else 0
-    dk = 1e-3 if depth3 == 3 else float(case["dk"])       # three nested stencils: round-off ~ eps/h^3 needs the larger step
-    kw = dict(k_vector_cartesian=cart, finite_diff_dk=dk, silent=True)
-    if case["box"] == "kmax":
-        kw["kmax"] = float(case["kmax"])
-    elif case["box"] == "real":
-        kw.update(kmax=None, real_lattice=wbsys.lattice_matrix(case["lat"]))
-    else:
-        kw.update(kmax=None, recip_lattice=wbsys.lattice_matrix(case["lat"]))
-    for i, name in enumerate(["derHam", "der2Ham", "der3Ham"]):
-        if not fd[i]:
-            kw[name] = m.fun(i + 1, cart)
-    if case["dim"] == 2 and not case["periodic3"]:
-        kw["periodic"] = (True, True, False)
-    system = SystemKP(Ham=m.fun(0, cart), **kw)
-    if not np.allclose(system.recip_lattice, m.recip, rtol=1e-9, atol=1e-12):
-        raise RuntimeError("harness: reciprocal lattice of the system is not the one of the model")
-    return system
+    if case["kind"] == "parabolic":
+        fd[2] = False                      # the third derivative is never evaluated for these models
+    nk = int(np.prod(KP_GRIDS[case["dim"]][case["grid"]][0]) * np.prod(KP_GRIDS[case["dim"]][case["grid"]][1]))
+    while True:
+        depth, d = [], 0
+        for f in fd:                      # nesting depth of each numerical derivative
+            d = d + 1 if f else 0
+            depth.append(d)
+        dk = 1e-3 if depth[2] == 3 else float(case["dk"])     # three nested stencils: round-off ~ eps/h^3 needs the larger step
+        kw = dict(k_vector_cartesian=cart, finite_diff_dk=dk, silent=True)
+        if case["box"] == "kmax":
+            kw["kmax"] = float(case["kmax"])
+        elif case["box"] == "real":
+            kw.update(kmax=None, real_lattice=wbsys.lattice_matrix(case["lat"]))
+        else:
+            kw.update(kmax=None, recip_lattice=wbsys.lattice_matrix(case["lat"]))
+        for i, name in enumerate(["derHam", "der2Ham", "der3Ham"]):
+            if not fd[i]:
+                kw[name] = m.fun(i + 1, cart)
+        if case["dim"] == 2 and not case["periodic3"]:
+            kw["periodic"] = (True, True, False)
+        system = SystemKP(Ham=m.fun(0, cart), **kw)
+        if not np.allclose(system.recip_lattice, m.recip, rtol=1e-9, atol=1e-12):
+            raise RuntimeError("harness: reciprocal lattice of the system is not the one of the model")
+        nb = len(system.wk)
+        if nk * sum(nb ** x for x in depth) <= KP_CALLS or not any(fd):
+            return system, fd
+        fd[max(i for i in range(3) if fd[i])] = False
 
 
 def kp_calculators(case, Ef, smoother):
@@ -465,7 +480,7 @@ class KPEvaluation:
         from wannierberri.smoother import FermiDiracSmoother
         self.case = case
         self.model, self.Ef, self.info = kp_model(case)
-        self.system = kp_system(case, self.model)
+        self.system, self.fd = kp_system(case, self.model)
         self.smoother = FermiDiracSmoother(self.Ef, T_Kelvin=float(case["T"]))
         if int(self.smoother.NE1) * (self.Ef[1] - self.Ef[0]) > KP_WINDOW * self.info["kT"]:
             raise RuntimeError("harness: the smoother reaches beyond the Fermi grid")
@@ -506,7 +521,7 @@ def check_kp(case):
     info, m = ev.info, ev.model
     dim = case["dim"]
     asym = float(np.linalg.norm(m.recip - m.recip.T) / np.linalg.norm(m.recip))
-    fd = "".join("n" if case[k] else "a" for k in ("fd1", "fd2", "fd3"))
+    fd = "".join("n" if f else "a" for f in ev.fd)
     describe = (f"k.p model dim={dim} bands={case['nb']} {case['kind']} box={case['box']} derivatives(1,2,3)={fd} "
                 f"(a analytic, n numerical) cartesian={case['cartesian']} T={case['T']} use_factor={case['use_factor']} "
                 f"|B-B^T|/|B|={asym:.2f} judged levels={info['njudged']}")
